@@ -23,7 +23,7 @@ TEXTS = {
          "a write through a handle changes only that object and the table holding it (frame), producers change no existing object, a "
          "refused or failed vector write changes nothing, columns belong to exactly one table; " + CORR + " after EVERY step of random "
          "and planted histories (state-level refinement: values, names, dtypes, storage identities, registry, memos)"
-         + TR.format("alias_tracker.py by state passing - EqAlias.v, 7 theorems: a refinement of the model's registry for every liveness predicate"),
+         + TR.format("alias_tracker.py by state passing - EqAlias.v, 9 theorems: a refinement of the model's registry for every liveness predicate"),
          TRUST.format(" and the translator") + "Rows are views, checked by the oracle (held rows) only; element values are None / ints / integral floats.",
          "Rocq proof: ownership + frame invariants by induction over histories of an executable heap model; state-level refinement check against the implementation"),
  "C02": ("theorems (all histories of the heap model): every table stays rectangular under every operation, failed ones included; ragged "
@@ -36,9 +36,11 @@ TEXTS = {
          "operation that does not re-infer (setitem/promotion, unary, <<, >>, cast, fillna, dropna, copy(new_values), to_object, new, "
          "getitem, sort, rows, transposes) preserves truthfulness; write-back of any element is accepted and keeps the dtype, and "
          "conversely; reachable_truthful at full strength; " + CORR + "; a GLOBAL MONITOR (installed in the implementation subprocess "
-         "only) checks every vector returned or mutated while the case streams of all 19 other modules run",
-         TRUST.format("") + "Hypothesis conv_ok: int()/float()/complex()/datetime.combine return an instance of exactly that class.",
-         "Rocq proof: truthfulness invariant by induction over programs; correspondence + global run-time monitor over all other checks' streams"),
+         "only) checks every vector returned or mutated while the case streams of all 19 other modules run"
+         + TR.format("infer_dtype, promote_with, validate_scalar - EqTyping.v Part 3, 5 C03 theorems on top of the 22 it shares with C04: the "
+                     "inferred dtype holds every element, promotion covers the new value and keeps every member"),
+         TRUST.format(" and the translator") + "Hypothesis conv_ok: int()/float()/complex()/datetime.combine return an instance of exactly that class.",
+         "Rocq proof: truthfulness invariant by induction over programs; typing kernels regenerated from source; correspondence + global run-time monitor over all other checks' streams"),
  "C04": ("theorems (all sequences, all (dtype, value) pairs): the inferred dtype depends only on the set of classes present and on whether "
          "None occurs (order, position of None, repetition are irrelevant), closed form = least upper bound in the kind lattice; promotion "
          "never narrows, keeps nullability, is idempotent and commutes; " + CORR + " - EXHAUSTIVE on the step functions (26 dtypes x 25 "
@@ -103,7 +105,7 @@ TEXTS = {
          "object holds the same non-empty storage, exactly characterised; sole owners are always writable; no write leaks; derived vectors "
          "and the columns of every new table own fresh storage (step_d) and are writable at once; " + CORR + " after every step of random and "
          "planted histories with explicit collection schedules; the oracle finds sharers through gc.get_objects()"
-         + TR.format("alias_tracker.py (register, unregister, check_writable, the dead-reference sweep) by state passing - EqAlias.v, 7 theorems: "
+         + TR.format("alias_tracker.py (register, unregister, check_writable, the dead-reference sweep) by state passing - EqAlias.v, 9 theorems (one by induction over every history of tracker calls): "
                      "each operation refines the model's for EVERY liveness predicate; refused iff two live owners of non-empty storage"),
          TRUST.format(" and the translator") + "Weak references die exactly at collection; id() of a live object is unique (CPython).",
          "Rocq proof: registry invariant by induction over histories with the allocator's identity choices as inputs; the tracker regenerated from source and proved to refine the model's registry; state-level refinement check"),
